@@ -541,6 +541,50 @@ def handleObjIdleE (c : Ctx) (es : EState) (cmd : List Bytes) : Except Halt (ERe
         | none => .ok (.res (.err (b "Error: key " ++ k ++ b " does not exist.")), es)
   | _ => .ok (.res (.err wrongArgs), es)
 
+/-- config.EvictionSample as the harness sets it -/
+def evictionSample : Nat := 20
+
+/-- evictKeysWithExpiredTTL :609 — one pass of the sampler goroutine started under every eviction policy.
+    `sampleSize` falls back to `len(keysWithExpiry.keys)` (the number of databases), the draw is
+    `rand.Intn(number of databases)` used as an index into the database's volatile slice, a drawn key already among
+    the sampled ones (or equal to "" — the unfilled slots) is drawn again without bound, every sampled key is deleted
+    whether expired or not, and since `deletedCount == sampleSize` the function calls itself — while the deferred
+    unlock of the store lock has not run: the recursive call samples again and then blocks on the lock for ever. -/
+def samplerPass (cfg : Cfg) (db : Nat) (es : EState) : Except Halt EState :=
+  let vol := (es.s.db db).vol
+  let ndb := es.s.dbs.length
+  let sampleSize := if vol.length < evictionSample then ndb else evictionSample
+  if ndb ≥ evictionSample then .error (.unmod "sampler with 20 or more databases") else
+  -- sampling, under the read lock of the volatile index
+  let sampled : Except Halt (List Bytes) :=
+    if sampleSize == 0 then .ok [] else
+    if vol.length ≥ evictionSample then .error (.hang "sampler cannot find 20 distinct keys among the first cells") else
+    if vol.length < ndb then .error (.panic "index out of range in the sampler") else
+    let cands := vol.take ndb
+    if cands.contains [] || cands.eraseDups.length < cands.length then .error (.hang "sampler redraws a key it already holds")
+    else .ok cands
+  match sampled with
+  | .error h => .error h
+  | .ok cands =>
+    match cands.foldl (fun (acc : Except Halt EState) k => acc.bind fun e => deleteKeyE cfg e db k) (.ok es) with
+    | .error h => .error h
+    | .ok es' =>
+      if sampleSize == 0 then .ok es' else
+      -- (deletedCount / sampleSize) * 100 = 100 ≥ 20: `return server.evictKeysWithExpiredTTL(ctx)`
+      match samplerPass2 cfg db es' with
+      | .error h => .error h
+      | .ok e => .ok e
+where
+  /-- the recursive call: samples, then blocks -/
+  samplerPass2 (cfg : Cfg) (db : Nat) (es : EState) : Except Halt EState :=
+    let vol := (es.s.db db).vol
+    let ndb := es.s.dbs.length
+    if vol.length ≥ evictionSample then .error (.hang "sampler cannot find 20 distinct keys among the first cells") else
+    if vol.length < ndb then .error (.panic "index out of range in the sampler") else
+    let cands := vol.take ndb
+    if cands.contains [] || cands.eraseDups.length < cands.length then .error (.hang "sampler redraws a key it already holds")
+    else .error (.hang "recursive sampler call blocks on the store lock its caller still holds")
+
 /-- one command under a memory limit; `none` = command not modelled -/
 def stepE (c : Ctx) (env : Env) (es : EState) (cmd : List Bytes) : Option (Except Halt (ERes × EState)) :=
   match cmd with
@@ -549,7 +593,9 @@ def stepE (c : Ctx) (env : Env) (es : EState) (cmd : List Bytes) : Option (Excep
     if !isAscii name then none else
     let n := toLower name
     let es := { es with ticks := 0 }
-    if n == b "touch" then some (handleTouchE c env es cmd)
+    if n == b "@tick" then
+      some ((samplerPass c.cfg c.db es).map fun e => (.res (.ok []), e))
+    else if n == b "touch" then some (handleTouchE c env es cmd)
     else if n == b "objectfreq" then some (handleObjFreqE c es cmd)
     else if n == b "objectidletime" then some (handleObjIdleE c es cmd)
     else (progOf c cmd).map fun p => (runE c env p es).map fun (r, e) => (.res r, e)
